@@ -12,21 +12,22 @@ namespace CaddyModel.C19
 def wA : Bytes := [97, 46, 116, 101, 115, 116]        -- "a.test"
 def wZ : Bytes := [122, 122, 46, 116, 101, 115, 116]  -- "zz.test"
 
-/-- 31 policies: policy 0 has no matchers (catch-all), policy 5 is `sni a.test`, every other one `sni zz.test` -/
+/-- one policy more than the index threshold (31 on the pinned tree): policy 0 has no matchers
+    (catch-all), policy 1 is `sni a.test`, every other one `sni zz.test` -/
 def trapPolicies : List Policy :=
-  (List.range 31).map fun i =>
+  (List.range (sniIndexThreshold + 1)).map fun i =>
     if i = 0 then ⟨[], false, false⟩
-    else if i = 5 then ⟨[.sni [wA]], false, false⟩
+    else if i = 1 then ⟨[.sni [wA]], false, false⟩
     else ⟨[.sni [wZ]], false, false⟩
 
 def trapHello : Hello := ⟨wA, fun _ => false⟩
 
-/-- First match is the catch-all policy 0; a populated index answers policy 5. -/
+/-- First match is the catch-all policy 0; a populated index answers policy 1. -/
 theorem live_index_breaks_first_match : ∃ ps h, choose true ps h ≠ firstMatch ps h :=
   ⟨trapPolicies, trapHello, by decide⟩
 
 example : firstMatch trapPolicies trapHello = .config 0 := by decide
-example : choose true trapPolicies trapHello = .config 5 := by decide
+example : choose true trapPolicies trapHello = .config 1 := by decide
 example : choose false trapPolicies trapHello = .config 0 := by decide
 example : indexHarmless trapPolicies trapHello = false := by decide
 
@@ -55,10 +56,10 @@ example : serve true [wSecret] (some wBracketed) (wBracketed ++ [58, 52, 52, 51]
 /-- Protocol lines of the two counter-examples; replayed on the implementation first on every run.
     Line 1 is `trapPolicies`/`trapHello` (written with the liveness flag 0 that the pinned tree
     shows: there first-match holds, the answer is `c0`; on a tree whose index is populated the
-    harness observes live=1, answers `c5`, and the first-match oracle fails on exactly this input).
+    harness observes live=1, answers `c1`, and the first-match oracle fails on exactly this input).
     Line 2 is the bracketed-Host request (known finding). -/
 def witnessLines : List String := [
-  "C19 pol 0 -/~/~;-/7a7a2e74657374/~;-/7a7a2e74657374/~;-/7a7a2e74657374/~;-/7a7a2e74657374/~;-/612e74657374/~;-/7a7a2e74657374/~;-/7a7a2e74657374/~;-/7a7a2e74657374/~;-/7a7a2e74657374/~;-/7a7a2e74657374/~;-/7a7a2e74657374/~;-/7a7a2e74657374/~;-/7a7a2e74657374/~;-/7a7a2e74657374/~;-/7a7a2e74657374/~;-/7a7a2e74657374/~;-/7a7a2e74657374/~;-/7a7a2e74657374/~;-/7a7a2e74657374/~;-/7a7a2e74657374/~;-/7a7a2e74657374/~;-/7a7a2e74657374/~;-/7a7a2e74657374/~;-/7a7a2e74657374/~;-/7a7a2e74657374/~;-/7a7a2e74657374/~;-/7a7a2e74657374/~;-/7a7a2e74657374/~;-/7a7a2e74657374/~;-/7a7a2e74657374/~ 612e74657374/0/6/1000011010111110",
+  "C19 pol 0 -/~/~;-/612e74657374/~;-/7a7a2e74657374/~;-/7a7a2e74657374/~;-/7a7a2e74657374/~;-/7a7a2e74657374/~;-/7a7a2e74657374/~;-/7a7a2e74657374/~;-/7a7a2e74657374/~;-/7a7a2e74657374/~;-/7a7a2e74657374/~;-/7a7a2e74657374/~;-/7a7a2e74657374/~;-/7a7a2e74657374/~;-/7a7a2e74657374/~;-/7a7a2e74657374/~;-/7a7a2e74657374/~;-/7a7a2e74657374/~;-/7a7a2e74657374/~;-/7a7a2e74657374/~;-/7a7a2e74657374/~;-/7a7a2e74657374/~;-/7a7a2e74657374/~;-/7a7a2e74657374/~;-/7a7a2e74657374/~;-/7a7a2e74657374/~;-/7a7a2e74657374/~;-/7a7a2e74657374/~;-/7a7a2e74657374/~;-/7a7a2e74657374/~;-/7a7a2e74657374/~ 612e74657374/0/6/1000011010111110",
   "C19 enf t . 7365637265742e74657374 1/5b7365637265742e746573745d/5b7365637265742e746573745d"
 ]
 
